@@ -33,7 +33,7 @@ RULE = ("case kind by index (period 8: 4 hill-climb, 3 tree, 1 exhaustive). Data
         "k2/bdeu/bds/bic/aic as string (any case) or as StructureScore instance (ess 1/5/10, optional declared extra "
         "states), random start DAG or None (DAG or BayesianNetwork), 0-2 fixed edges, black list, white list, "
         "max_indegree None/1-3, tabu_length 0/1/2/100, epsilon 1e-4/0.5, max_iter 1/2/3/1e6, use_cache both; plus a "
-        "re-run with epsilon set to an observed best delta (boundary of the stop rule). Exhaustive: the 5 scores or the "
+        "re-run with epsilon set to an observed best delta (boundary of the stop rule). Estimator object reused: in ~40% of the hill-climb and tree cases 1-2 further estimate() calls go to the SAME HillClimbSearch / TreeSearch object with another score (method / form / ess) and option set, resp. another estimator_type / edge_weights_fn / class_node, each call judged by the full contract of its own arguments; ~60% of the exhaustive cases use one ExhaustiveSearch object for estimate(), all_scores() and a second estimate(). Exhaustive: the 5 scores or the "
         "default, use_cache both, estimate() and all_scores(). Tree: chow-liu / tan, every root incl. None, weight "
         "functions mutual_info / adjusted / normalized / 3 custom callables (incl. negative weights), data regenerated "
         "until all pairwise (for TAN: class-conditional) MI > 1e-6. non-trivial: hill climb with >= 1 recorded iteration "
@@ -234,10 +234,37 @@ def gen_scoring(rng, data, allow_default=False):
 
 
 def gen_hc(rng, tier):
-    thorough = tier == "thorough"
     n = rng.choice([2, 3, 3, 4, 4, 4, 5, 5, 6])
     data = gen_data(rng, n, tier, min_card=1 if rng.random() < 0.1 else 2)
+    opt = gen_hc_opt(rng, data)
+    # estimator object reused: 1-2 further estimate() calls on the SAME HillClimbSearch object with another score
+    # (other method, other form, other equivalent sample size) and a freshly drawn option set
+    reuse = []
+    if rng.random() < 0.4:
+        for _ in range(rng.choice([1, 1, 2])):
+            o = gen_hc_opt(rng, data)
+            prev = [opt["scoring"]] + [r["scoring"] for r in reuse]
+            for _try in range(8):
+                if all(_score_id(o["scoring"]) != _score_id(q) for q in prev):
+                    break
+                o["scoring"] = gen_scoring(rng, data)
+            o["use_cache"] = opt["use_cache"]      # use_cache belongs to the object
+            if rng.random() < 0.5:                  # plain second call: the other score is the only difference
+                o.update(black=None, white=None, fixed=[], cyclic_fixed=False, max_indegree=None, tabu=0,
+                         max_iter=10 ** 6, start=None, start_cls="DAG")
+            reuse.append(o)
+    opt["reuse"] = reuse
+    return {"kind": "hc", "data": data, "opt": opt}
+
+
+def _score_id(sc):
+    return (sc["name"], sc["ess"] if sc["name"] in ("bdeu", "bds") and sc["form"] == "inst" else None,
+            tuple(sorted(sc["extra"])))
+
+
+def gen_hc_opt(rng, data):
     cols = data["cols"]
+    n = len(cols)
     pairs = _all_pairs(cols)
     opt = {"scoring": gen_scoring(rng, data), "use_cache": rng.random() < 0.5}
     start = None
@@ -278,7 +305,7 @@ def gen_hc(rng, tier):
     opt["epsilon"] = rng.choice([1e-4, 1e-4, 0.5])
     opt["max_iter"] = rng.choice([1, 2, 3, 10 ** 6, 10 ** 6, 1e6, 1e6])
     opt["eps_probe"] = rng.random() < 0.5
-    return {"kind": "hc", "data": data, "opt": opt}
+    return opt
 
 
 def gen_ex(rng, tier):
@@ -294,7 +321,10 @@ def gen_ex(rng, tier):
     # so the uncached / all_scores variants are drawn less often there
     u1, u2 = rng.random(), rng.random()
     return {"kind": "ex", "data": data, "opt": {"scoring": sc, "use_cache": u1 < (0.55 if n <= 3 else 0.8),
-                                                 "all_scores": n <= 3 or u2 < 0.35}}
+                                                 "all_scores": n <= 3 or u2 < 0.35,
+                                                 # one ExhaustiveSearch object serves estimate(), all_scores() and a
+                                                 # second estimate() (else a fresh object per call)
+                                                 "reuse": rng.random() < 0.6}}
 
 
 WEIGHT_FNS = ["mutual_info", "mutual_info", "mutual_info", "adjusted_mutual_info", "normalized_mutual_info",
@@ -327,6 +357,17 @@ def gen_tree(rng, tier):
         opt["root"] = cls                   # documented refusal
     else:
         opt["root"] = rng.choice(feats)
+    # estimator object reused: 1-2 further estimate() calls on the SAME TreeSearch object (root_node belongs to the
+    # object) with another estimator_type / edge_weights_fn / class_node
+    more = []
+    if rng.random() < 0.4:
+        for _ in range(rng.choice([1, 1, 2])):
+            t2 = rng.random() < 0.45
+            c2 = None
+            if t2:
+                c2 = cls if (cls is not None and rng.random() < 0.5) else rng.choice(cols)
+            more.append({"type": "tan" if t2 else "chow-liu", "wfn": rng.choice(WEIGHT_FNS), "class_node": c2})
+    opt["more"] = more
     return {"kind": "tree", "data": data, "opt": opt}
 
 
@@ -548,14 +589,23 @@ def make_start(opt, cols, edges=None):
     return g
 
 
-def run_hc_once(ctx, df, d, opt, epsilon=None, start_edges=None):
-    """One estimate() call with a recorder; returns (result or PgmpyError, recorder)."""
+def new_hc_estimator(ctx, df, use_cache):
+    """(HillClimbSearch object, its recorder) or (PgmpyError, None)."""
     from pgmpy.estimators import HillClimbSearch
-    cols = d["cols"]
-    est = ctx.call(HillClimbSearch, df, use_cache=opt["use_cache"])
+    est = ctx.call(HillClimbSearch, df, use_cache=use_cache)
     if ctx.failed(est):
         return est, None
-    rec = Recorder(est)
+    return est, Recorder(est)
+
+
+def run_hc_once(ctx, df, d, opt, epsilon=None, start_edges=None, est_rec=None):
+    """One estimate() call with a recorder; returns (result or PgmpyError, recorder).  est_rec: an estimator object
+    (and its recorder) that already served earlier calls - the recorder is emptied, the object is used as it is."""
+    cols = d["cols"]
+    est, rec = est_rec if est_rec is not None else new_hc_estimator(ctx, df, opt["use_cache"])
+    if ctx.failed(est):
+        return est, None
+    rec.iters = []
     kw = hc_kwargs(opt, cols)
     if epsilon is not None:
         kw["epsilon"] = epsilon
@@ -583,10 +633,24 @@ def read_graph(ctx, g, key, label):
 
 
 def run_hc(spec, ctx):
+    """All estimate() calls of the case go to ONE HillClimbSearch object; every call is judged by the same contract,
+    with the score requested in that call."""
+    d, opt = spec["data"], spec["opt"]
+    df = build_frame(d)
+    est_rec = new_hc_estimator(ctx, df, opt["use_cache"])
+    calls = [opt] + list(opt.get("reuse") or [])
+    if len(calls) > 1:
+        ctx.feature("hc:object-reused")
+    for k, o in enumerate(calls):
+        if k:
+            ctx.note("hc:calls-on-reused-object")
+        judge_hc({"kind": "hc", "data": d, "opt": o}, ctx, df, est_rec, k)
+
+
+def judge_hc(spec, ctx, df, est_rec, call_no):
     from pgmpy.base import DAG
     d, opt = spec["data"], spec["opt"]
     cols = d["cols"]
-    df = build_frame(d)
     fixed = {tuple(e) for e in opt["fixed"]}
     black = {tuple(e) for e in (opt["black"] or [])}
     white = None if opt["white"] is None else {tuple(e) for e in opt["white"]}
@@ -597,7 +661,7 @@ def run_hc(spec, ctx):
     sc = opt["scoring"]
     detail = dict(cols=cols, score=sc, start=sorted(start_user), fixed=sorted(fixed), black=sorted(black),
                   white=None if white is None else sorted(white), max_indegree=mi_opt, tabu=tabu_len,
-                  epsilon=eps, max_iter=opt["max_iter"], use_cache=opt["use_cache"])
+                  epsilon=eps, max_iter=opt["max_iter"], use_cache=opt["use_cache"], call_on_this_object=call_no + 1)
     for f in (f"hc:score:{sc['name']}", f"hc:scoring-{sc['form']}", "hc:start" if opt["start"] is not None else "hc:no-start",
               "hc:fixed" if fixed else None, "hc:black" if black else None, "hc:white" if white is not None else None,
               f"hc:indeg:{mi_opt}", f"hc:tabu:{tabu_len}", f"hc:maxiter:{'cap' if max_iter < 100 else 'inf'}",
@@ -606,7 +670,7 @@ def run_hc(spec, ctx):
         if f:
             ctx.feature(f)
 
-    r, rec = run_hc_once(ctx, df, d, opt)
+    r, rec = run_hc_once(ctx, df, d, opt, est_rec=est_rec)
 
     # ---- documented refusal: fixed edges closing a cycle with the start graph
     if opt["cyclic_fixed"]:
@@ -678,7 +742,7 @@ def run_hc(spec, ctx):
         e = S.error
         ctx.violation(f"c11:hc:exception:{e.type}@{e.where}", f"uncached scorer raised {e!r} on a family of the search space", **detail)
         return
-    ctx.nontrivial = len(cols) >= 2 and any(it["ops"] for it in rec.iters)
+    ctx.nontrivial = ctx.nontrivial or (len(cols) >= 2 and any(it["ops"] for it in rec.iters))
 
     # ---- epsilon boundary: re-run with epsilon := an observed best delta; the search must not stop there
     if opt["eps_probe"] and not bad_black:
@@ -888,40 +952,63 @@ def run_ex(spec, ctx):
                                          "use_cache=False]", **dt)
         ctx.violation(key, what, **dt)
 
+    reuse = bool(opt.get("reuse"))
+    if reuse:
+        ctx.feature("ex:object-reused")
+
+    def judge_estimate(est, label):
+        """One estimate() call on `est`: a DAG on the columns with globally maximal (uncached) score."""
+        dt = dict(detail, call=label)
+        r = ctx.call(est.estimate)
+        if ctx.failed(r):
+            return ctx.violation(f"c11:ex:exception:{r.type}@{r.where}", f"ExhaustiveSearch.estimate raised {r!r}", **dt)
+        if not isinstance(r, DAG):
+            return ctx.violation("c11:ex:malformed-result", f"estimate returned {type(r).__name__}, not a DAG", **dt)
+        got = read_graph(ctx, r, "c11:ex:malformed-result", "estimate")
+        if got is None:
+            return
+        nodes, E = got
+        dt["result"] = sorted(E)
+        ctx.expect(sorted(nodes) == sorted(cols) and len(nodes) == len(cols), "c11:ex:wrong-nodes",
+                   f"result nodes {sorted(nodes)} != data columns {sorted(cols)}", **dt)
+        if not (acyclic(cols, E) and frozenset(E) in scores):
+            ctx.violation("c11:ex:cyclic-result", f"result {sorted(E)} is not a DAG on the columns", **dt)
+        else:
+            s = scores[frozenset(E)]
+            if s >= best - 1e-7:
+                ctx.ok()
+                ctx.xcell["ex:score-of-returned-dag:" + label] = round(s, 6)
+            else:
+                arg = max(scores, key=lambda k: scores[k])
+                classify("c11:ex:not-maximal", f"{label}: returned DAG {sorted(E)} scores {s!r}; DAG {sorted(arg)} scores "
+                         f"{best!r} (max over all {len(dags)} DAGs)", **dt)
+        return True
+
     est = ctx.call(build, opt["use_cache"])
     if ctx.failed(est):
         return ctx.violation(f"c11:ex:exception:{est.type}@{est.where}", f"ExhaustiveSearch(...) raised {est!r}", **detail)
-    r = ctx.call(est.estimate)
-    if ctx.failed(r):
-        return ctx.violation(f"c11:ex:exception:{r.type}@{r.where}", f"ExhaustiveSearch.estimate raised {r!r}", **detail)
-    if not isinstance(r, DAG):
-        return ctx.violation("c11:ex:malformed-result", f"estimate returned {type(r).__name__}, not a DAG", **detail)
-    got = read_graph(ctx, r, "c11:ex:malformed-result", "estimate")
-    if got is None:
+    if not judge_estimate(est, "first estimate()"):
         return
-    nodes, E = got
-    detail["result"] = sorted(E)
-    ctx.expect(sorted(nodes) == sorted(cols) and len(nodes) == len(cols), "c11:ex:wrong-nodes",
-               f"result nodes {sorted(nodes)} != data columns {sorted(cols)}", **detail)
-    if not (acyclic(cols, E) and frozenset(E) in scores):
-        ctx.violation("c11:ex:cyclic-result", f"result {sorted(E)} is not a DAG on the columns", **detail)
-    else:
-        s = scores[frozenset(E)]
-        if s >= best - 1e-7:
-            ctx.ok()
-            ctx.xcell["ex:score-of-returned-dag"] = round(s, 6)
-        else:
-            arg = max(scores, key=lambda k: scores[k])
-            classify("c11:ex:not-maximal", f"returned DAG {sorted(E)} scores {s!r}; DAG {sorted(arg)} scores {best!r} "
-                     f"(max over all {len(dags)} DAGs)", **detail)
     ctx.nontrivial = len(cols) >= 2
 
-    if not opt["all_scores"]:
-        return
-    est = ctx.call(build, opt["use_cache"])
-    lst = ctx.call(est.all_scores) if not ctx.failed(est) else est
-    if ctx.failed(lst):
-        return ctx.violation(f"c11:ex:exception:{lst.type}@{lst.where}", f"all_scores raised {lst!r}", **detail)
+    if opt["all_scores"]:
+        if not reuse:
+            est = ctx.call(build, opt["use_cache"])
+        judge_all_scores = True
+    else:
+        judge_all_scores = False
+    if judge_all_scores:
+        lst = ctx.call(est.all_scores) if not ctx.failed(est) else est
+        if ctx.failed(lst):
+            return ctx.violation(f"c11:ex:exception:{lst.type}@{lst.where}", f"all_scores raised {lst!r}", **detail)
+        _judge_all_scores(ctx, lst, cols, dags, scores, classify, detail)
+    # the same object once more: estimate() after estimate() / all_scores() must still return a maximal DAG
+    if reuse and (len(cols) <= 3 or cached):
+        ctx.note("ex:calls-on-reused-object")
+        judge_estimate(est, "estimate() again on the same object")
+
+
+def _judge_all_scores(ctx, lst, cols, dags, scores, classify, detail):
     try:
         seen, vals = [], []
         for (s, g) in lst:
@@ -1116,14 +1203,12 @@ def check_arborescence(ctx, E, nodes, root, label, detail):
 
 
 def run_tree(spec, ctx):
-    from pgmpy.base import DAG
+    """All estimate() calls of the case go to ONE TreeSearch object (root_node belongs to the object); every call is
+    judged against the weight graph of ITS estimator_type / edge_weights_fn / class_node."""
     from pgmpy.estimators import TreeSearch
     d, opt = spec["data"], spec["opt"]
-    cols = d["cols"]
-    tan, cls, root, wname = opt["type"] == "tan", opt["class_node"], opt["root"], opt["wfn"]
-    detail = dict(cols=cols, type=opt["type"], class_node=cls, root=root, wfn=wname, kinds=d["kinds"])
-    for f in (f"tree:{opt['type']}", f"tree:w:{wname}", "tree:root-none" if root is None else "tree:root-given",
-              f"tree:n{len(cols)}", "dup-column" if d["dup"] else None):
+    cols, root = d["cols"], opt["root"]
+    for f in ("tree:root-none" if root is None else "tree:root-given", f"tree:n{len(cols)}", "dup-column" if d["dup"] else None):
         if f:
             ctx.feature(f)
     if not d["mi_ok"]:
@@ -1131,6 +1216,27 @@ def run_tree(spec, ctx):
         return
     df = build_frame(d)
     L = label_columns(d)
+    est = ctx.call(lambda: TreeSearch(df, root_node=root, n_jobs=1))
+    if ctx.failed(est):
+        return ctx.violation(f"c11:tree:exception:{est.type}@{est.where}", f"TreeSearch(...) raised {est!r}",
+                             cols=cols, root=root, kinds=d["kinds"])
+    calls = [opt] + list(opt.get("more") or [])
+    if len(calls) > 1:
+        ctx.feature("tree:object-reused")
+    for k, o in enumerate(calls):
+        if k:
+            ctx.note("tree:calls-on-reused-object")
+        judge_tree(ctx, d, df, L, est, dict(o, root=root), k)
+
+
+def judge_tree(ctx, d, df, L, est, opt, call_no):
+    from pgmpy.base import DAG
+    cols = d["cols"]
+    tan, cls, root, wname = opt["type"] == "tan", opt["class_node"], opt["root"], opt["wfn"]
+    detail = dict(cols=cols, type=opt["type"], class_node=cls, root=root, wfn=wname, kinds=d["kinds"],
+                  call_on_this_object=call_no + 1)
+    for f in (f"tree:{opt['type']}", f"tree:w:{wname}"):
+        ctx.feature(f)
     feats = [c for c in cols if c != cls]
     wfn = oracle_weight_fn(ctx, wname)
     # the weight graph, recomputed from the spec
@@ -1143,14 +1249,19 @@ def run_tree(spec, ctx):
         else:
             w = wfn(L[a], L[b])
         W[(a, b)] = W[(b, a)] = w
-    if any(abs(w) < 1e-12 for w in W.values()):
+    if any(abs(w) < 1e-9 for w in W.values()):
         ctx.note("tree:skipped-zero-weight")  # zero-weight pairs are not edges of the weight graph: outside the quantifier
         return
+    # the root this call works with: the constructor's, or (root_node=None) the one an earlier call on this object chose
+    try:
+        eff_root = est.root_node
+    except Exception:
+        eff_root = root
+    if root is None and eff_root is not None:
+        ctx.note("tree:auto-root-kept-from-earlier-call")
+        detail["root_kept_from_earlier_call"] = eff_root
 
-    def build():
-        return TreeSearch(df, root_node=root, n_jobs=1)
-
-    def estimate(est):
+    def estimate():
         kw = {"estimator_type": opt["type"], "show_progress": False}
         if wname != "mutual_info" or len(cols) % 2:
             kw["edge_weights_fn"] = CUSTOM.get(wname, wname)
@@ -1158,18 +1269,15 @@ def run_tree(spec, ctx):
             kw["class_node"] = cls
         return est.estimate(**kw)
 
-    est = ctx.call(build)
-    if ctx.failed(est):
-        return ctx.violation(f"c11:tree:exception:{est.type}@{est.where}", f"TreeSearch(...) raised {est!r}", **detail)
-    r = ctx.call(estimate, est)
+    r = ctx.call(estimate)
 
-    if tan and root == cls:                  # documented refusal
+    if tan and eff_root is not None and eff_root == cls:     # documented refusal
         ctx.feature("tree:root-is-class")
         ctx.expect(ctx.failed(r) and r.type == "ValueError", "c11:tan:root-equals-class-not-refused",
                    f"root_node == class_node was not refused with ValueError: {r!r}", **detail)
         return
     if ctx.failed(r):
-        return classify_tree_exception(ctx, spec, df, r, L, detail)
+        return classify_tree_exception(ctx, {"data": d, "opt": opt}, df, r, L, detail)
     if not isinstance(r, DAG):
         return ctx.violation("c11:tree:malformed-result", f"estimate returned {type(r).__name__}, not a DAG", **detail)
     got = read_graph(ctx, r, "c11:tree:malformed-result", "estimate")
@@ -1177,8 +1285,8 @@ def run_tree(spec, ctx):
         return
     nodes, E = got
     detail["result"] = sorted(E)
-    chosen = root
-    if root is None:
+    chosen = eff_root
+    if chosen is None:
         try:
             chosen = est.root_node
         except Exception:
@@ -1205,8 +1313,8 @@ def run_tree(spec, ctx):
         ctx.expect(got_w >= best - 1e-9 * scale * len(feats), "c11:tree:not-max-weight",
                    f"tree weight {got_w!r} < maximum {best!r} over all {len(feats)}^{max(len(feats) - 2, 0)} spanning trees", **detail)
         if got_w >= best - 1e-9 * scale * len(feats):
-            ctx.xcell["tree:weight-of-returned-tree"] = round(got_w, 7)
-    ctx.nontrivial = len(feats) >= 3
+            ctx.xcell[f"tree:weight-of-returned-tree:call{call_no + 1}"] = round(got_w, 7)
+    ctx.nontrivial = ctx.nontrivial or len(feats) >= 3
 
 
 def classify_tree_exception(ctx, spec, df, r, L, detail):
